@@ -99,6 +99,7 @@ def check(ctx):
     n, f = c04.table_rule(ctx, 'R03.2', lambda p: bool(TYPING.match(p)), 'the typing functions code generation relies on', guards.GUARD_FIELDS)
     ctx.floor('R03.2', 'typing functions', f, 20)
     # width / range / power-of-two helpers the literal and type checks delegate to: a wrong helper value admits a program that cannot be compiled
+    c04.group_rule(ctx, 'R03.2a', guards.ACCESSORS, 'structural accessors (children of tree nodes in order, type deconstructors, variant-to-variant tables)', 40)
     c04.table_rule(ctx, 'R03.2h', lambda p: bool(c04.HELP.match(p)), 'predicate helpers of the typing functions (returned values compared as well)')
     r_cannot_compile(ctx)
     from . import c08, c09
